@@ -9,6 +9,7 @@ Ranges inside the implementation are half-open; `toHalfOpen` converts the RFC's 
 import HttpServeModel.Lemmas.RangeParse
 import HttpServeModel.Lemmas.ServeLemmas
 import HttpServeModel.Lemmas.Misc
+import HttpServeModel.Lemmas.ServeCalls
 
 namespace HS
 
@@ -123,5 +124,13 @@ theorem C03_complete_when_ranges_total_ge_L (m : Method) (hm : m ≠ .other) (hd
   have := sum_sizes_le_est rs
   rw [if_neg (by omega)] at hcase
   exact ⟨hcase.1, hcase.2.1⟩
+
+/-- Without a Range header there is never a partial answer: whatever the other headers say
+(If-Range, the four conditionals, any bytes), the status is not 206, 413 or 416 and no
+Content-Range is sent. -/
+theorem C03_no_range_no_partial (q : Req) (e : Ent) (now : Nat) (r : Resp)
+    (hr : q.range = none) (h : serve q e now = .ok r) :
+    r.status ∉ [206, 413, 416] ∧ r.header .contentRange = none :=
+  no_range_no_partial q e now r hr h
 
 end HS
